@@ -5,6 +5,7 @@
 package rtsp
 
 import (
+	"errors"
 	"bufio"
 	"fmt"
 	"io"
@@ -155,15 +156,23 @@ func (h Header) clone() Header {
 	return h2
 }
 
+// 头部总大小上限
+const maxHeaderBytes = 256 * 1024
+
 // ReadHeader 根据规范的格式从 r 中读取 Header
 func ReadHeader(r *bufio.Reader) (Header, error) {
 	h := make(Header, 6) // 多数情况够了
+	total := 0
 	for {
 		var kv string
 		kv, err := readLine(r)
 		// 返回错误
 		if err != nil {
 			return nil, err
+		}
+		// 限制整个头部的大小，避免无休止的头部行耗尽内存
+		if total += len(kv) + 2; total > maxHeaderBytes {
+			return nil, errors.New("header over the maximum size")
 		}
 
 		// 空行，Header读取完成退出循环;
@@ -284,9 +293,9 @@ func readLine(r *bufio.Reader) (string, error) {
 		if !more {
 			break
 		}
-		// if len(line) >maxLineLenght {
-		// 	return string(line),errors.New("line over the maximum length")
-		// }
+		if len(line) > maxLineLenght {
+			return "", errors.New("line over the maximum length")
+		}
 	}
 	return string(line), nil
 }
